@@ -231,6 +231,37 @@ def typed_element_docs():
                     yield ("typed elements %s%s%s" % ("+".join(elems[i][1] for i in combo), " in a bundle" if in_bundle else "", " " + "+".join(rels) if rels else ""), d)
 
 
+def cross_reference_docs():
+    """fixed documents: relations whose optional arguments name OTHER relations of the same container — a derivation that
+    names its generation and its usage (identified and anonymous derivation; the generation and usage declared as
+    identified records, or merely named), a start and an end naming their trigger and starter / ender activities — at
+    document level and in a bundle: every relation comes back exactly once, with its own endpoints"""
+    import prov.model as M
+    from prov.identifier import Namespace
+    EX = Namespace("ex", "http://example.org/")
+    for in_bundle in (False, True):
+        for ident in (True, False):
+            for declared in ("both", "generation", "usage", "none"):
+                d = M.ProvDocument(); d.add_namespace(EX)
+                c = d.bundle(EX["bundle"]) if in_bundle else d
+                c.entity(EX["e1"]); c.entity(EX["e2"]); c.activity(EX["a"])
+                if declared in ("both", "generation"):
+                    c.wasGeneratedBy(EX["e2"], EX["a"], None, EX["g1"], {EX["k"]: 1})
+                if declared in ("both", "usage"):
+                    c.used(EX["a"], EX["e1"], None, EX["u1"], {"prov:role": "input"})
+                c.wasDerivedFrom(EX["e2"], EX["e1"], EX["a"], EX["g1"], EX["u1"], EX["d"] if ident else None,
+                                 {EX["k"]: "v"} if ident else None)
+                yield ("derivation %s naming generation and usage (%s declared)%s" % ("ex:d" if ident else "anonymous", declared,
+                                                                                     " in a bundle" if in_bundle else ""), d)
+        d = M.ProvDocument(); d.add_namespace(EX)
+        c = d.bundle(EX["bundle"]) if in_bundle else d
+        c.activity(EX["a1"]); c.activity(EX["a2"]); c.entity(EX["t"])
+        c.wasStartedBy(EX["a2"], EX["t"], EX["a1"], None, EX["s"], {EX["k"]: 1})
+        c.wasEndedBy(EX["a2"], EX["t"], EX["a1"], None, EX["en"])
+        c.wasInformedBy(EX["a2"], EX["a1"], EX["inf"], {EX["k"]: 2})
+        yield ("start, end and communication between the same activities%s" % (" in a bundle" if in_bundle else ""), d)
+
+
 def rel_descriptors(d):
     """the relation records of a (bundle-free) document as the quad-level model sees them"""
     import datetime
@@ -825,6 +856,17 @@ def run(tier, seed, log, model_runs=True, enlarged=False):
         for f in fails:
             violations.append({"kind": "failing-input", "failure": dict(f, shape=desc), "provn": d.get_provn()[:2500]})
     log("typed elements: %d documents" % ntyped)
+    ncross = 0
+    for desc, d in cross_reference_docs():
+        ncross += 1
+        try:
+            fails = roundtrip_case(d, rng, 1)
+        except Exception:
+            violations.append({"kind": "harness-error", "what": "harness error", "detail": traceback.format_exc()[-1500:]})
+            continue
+        for f in fails:
+            violations.append({"kind": "failing-input", "failure": dict(f, shape=desc), "provn": d.get_provn()[:2500]})
+    log("relations naming other relations: %d documents" % ncross)
     disagreements = []
     npred = 0
     if model_runs:
